@@ -1,6 +1,7 @@
 package sim
 
 import (
+	"os"
 	"bytes"
 	"encoding/binary"
 	"fmt"
@@ -126,7 +127,7 @@ func parseReply(wire []byte) (replyLayout, bool) {
 func workerWCut(t *testing.T, out *WorkerOut) {
 	start := time.Now()
 	k := wcutBaseKnobs()
-	progs, cases := 0, 0
+	progs, cases, enumerated := 0, 0, 0
 	shapes := map[string]bool{}
 	record := func(res *Result, seed int64) {
 		out.Runs++
@@ -142,6 +143,12 @@ func workerWCut(t *testing.T, out *WorkerOut) {
 			out.Capped++
 		}
 		out.Shapes[res.Shape]++
+		if *flagHashes {
+			if out.Hashes == nil {
+				out.Hashes = map[string]string{}
+			}
+			out.Hashes[fmt.Sprint(out.Runs)] = res.TraceHash
+		}
 		if nontrivial(*flagProp, res) || res.Stats.Faults["wirecut-clean"]+res.Stats.Faults["wirecut-reset"] > 0 {
 			out.NonTriv++
 			shapes[res.Shape] = true
@@ -170,7 +177,7 @@ func workerWCut(t *testing.T, out *WorkerOut) {
 		if *flagBudget > 0 {
 			return time.Since(start) <= *flagBudget
 		}
-		return progs < 2
+		return enumerated < 2 && progs < 50
 	}
 	for pi := 0; budgetLeft(); pi++ {
 		seed := *flagSeed + int64(pi)
@@ -209,6 +216,7 @@ func workerWCut(t *testing.T, out *WorkerOut) {
 		record(res, seed)
 		runtime.GC()
 		progs++
+		if os.Getenv("WCUT_DEBUG") != "" { fmt.Printf("wcut prog seed=%d fatal=%q s2c=%d c2s=%d viols=%d hdrEnd=%d trailerEnd=%d\n", seed, res.Fatal, s2cTotal, c2sTotal, len(res.Viols), lay.hdrEnd, lay.trailerEnd) }
 		if res.Fatal != "" || s2cTotal == 0 || s2cTotal > recLimit || len(res.Viols) > 0 && hasProp(res.Viols, *flagProp) {
 			continue
 		}
@@ -223,19 +231,21 @@ func workerWCut(t *testing.T, out *WorkerOut) {
 			cases++
 			runtime.GC()
 		}
+		enumerated++
+		inProg := func() bool { return *flagBudget == 0 || budgetLeft() }
 		// the reply: every offset from just before the end of the header block to the last byte
 		from := lay.hdrEnd - 2
 		if from < 0 {
 			from = 0
 		}
-		for off := from; off <= s2cTotal && budgetLeft(); off++ {
+		for off := from; off <= s2cTotal && inProg(); off++ {
 			for _, reset := range []bool{false, true} {
 				try("s2c", off, reset, s2cTotal)
 			}
 		}
 		// a few cuts inside the reply's header block
 		for _, off := range []int{0, 1, 17, lay.hdrEnd / 2} {
-			if off < from && budgetLeft() {
+			if off < from && inProg() {
 				try("s2c", off, false, s2cTotal)
 			}
 		}
@@ -244,7 +254,7 @@ func workerWCut(t *testing.T, out *WorkerOut) {
 		if rfrom < 0 {
 			rfrom = 0
 		}
-		for off := rfrom; off <= c2sTotal && budgetLeft(); off++ {
+		for off := rfrom; off <= c2sTotal && inProg(); off++ {
 			for _, reset := range []bool{false, true} {
 				try("c2s", off, reset, c2sTotal)
 			}
